@@ -12,6 +12,9 @@ What is emitted (and nothing else):
   * lock skeletons of the public functions of trie-pfx.c and ht-spkitable.c - written to a SEPARATE file,
     coq/theories/Gen/LockSkeletons.v (imported only by Conc/*.v and Props/Properties_C16.v / _C06.v), so that a
     problem there cannot break the rest of the development.  VERIF_SKEL_OUT=<path> writes only that file, to <path>.
+  * functions that WRITE a byte buffer through pointers (memory mode with stores, class TrMemW; vocabulary
+    Base/MemW.v) - written to coq/theories/Gen/GeneratedMemW.v (imported by Rtr/FooterTie.v), again a separate file
+    so that GeneratedMem.v does not change.  `c2v.py --only-memw [path]` writes only that file.
 A construct outside the subset makes the function come out as `<f>_untranslated`, which breaks
 the Coq files that mention `<f>_gen` - a broken tie, handled by the checks.
 """
@@ -22,6 +25,7 @@ import subprocess
 import sys
 
 sys.path.insert(0, os.path.dirname(os.path.abspath(__file__)))
+sys.path.insert(1, "/verif/tools")   # a copy of this file kept elsewhere still finds vlib
 import vlib  # noqa: E402
 
 REPO = vlib.REPO
@@ -611,7 +615,7 @@ class Tr:
             el = ins[2] if len(ins) > 2 else None
             g, tc = self.cond(c)
             js = json.dumps(s)
-            if rest and '"ReturnStmt"' not in js and '"BreakStmt"' not in js and '"SwitchStmt"' not in js:
+            if rest and self.may_join(s) and '"ReturnStmt"' not in js and '"BreakStmt"' not in js and '"SwitchStmt"' not in js:
                 # no branch leaves the function: join the branches on the outer variables they assign,
                 # so that the code after the `if` is emitted once
                 outer = set(self.locals)
@@ -806,6 +810,10 @@ class Tr:
         if kind in self.holes or True:
             raise Untranslatable("statement " + str(kind))
 
+    def may_join(self, s):
+        """may the branches of this `if` be joined on the variables they assign (memory mode with stores: no)"""
+        return True
+
     def rvalue_of(self, lhs):
         return {"kind": "ImplicitCastExpr", "castKind": "LValueToRValue", "type": lhs.get("type"), "inner": [lhs]}
 
@@ -977,8 +985,13 @@ class TrMem(Tr):
         if t is None:
             raise Untranslatable("load of non-integer " + self.qt(node))
         g, p = self.paddr(lv)
+        m = self.objof(lv)
         size = max(8, t[0]) // 8
-        return g + ["(ld_ok mem %s %d)" % (p, size)], "(%s mem %s %d)" % ("lds" if t[1] else "ldu", p, size)
+        return g + ["(ld_ok %s %s %d)" % (m, p, size)], "(%s %s %s %d)" % ("lds" if t[1] else "ldu", m, p, size)
+
+    def objof(self, n):
+        """the memory object (a Coq variable) the pointer / lvalue expression n points into: here there is only one"""
+        return "mem"
 
     def through_pointer(self, lv):
         k = lv.get("kind")
@@ -1129,6 +1142,446 @@ def generate_mem():
             w("(* %s could not be translated: %s *)" % (fname, str(e).replace("*)", "* )")))
             w("Definition %s_untranslated := tt.\n" % fname)
     w("Definition mem_translator_problems : list string := [%s]." % "; ".join(coq_string(p[:200]) for p in problems))
+    _MEM_CTX.update(known=dict(known), enums=dict(enums_all), sizes=sizes)
+    return "\n".join(out) + "\n", problems
+
+
+# ---------------------------------------------------------------------------
+# memory mode WITH STORES (Base/MemW.v): functions that write through pointers
+# ---------------------------------------------------------------------------
+# As in memory mode a pointer is an offset (option Z, None = NULL) - but there may be several memory objects, each a
+# byte list held in its own Coq variable, and the translator knows statically which object every pointer expression
+# points into:
+#   * every pointer PARAMETER brings its own object (`mem` if the function has one pointer parameter, `m_<param>`
+#     otherwise); call sites must pass pairwise different objects to a callee that writes (otherwise: untranslatable),
+#     so parameters never alias;
+#   * every local ARRAY of integers is an object of its own (`m_<name>`, zero-filled: a read of an element that was
+#     never written yields 0 in the model, where C leaves the value indeterminate), its address is offset 0;
+#   * a pointer LOCAL points into the object it was first assigned from; assigning it from another object later is
+#     untranslatable.
+# A store `lv = e` becomes   guard (st_ok m p size) (let m := stu m p size e in ...)   - the object variable is
+# shadowed, so every later load reads the updated bytes; a store outside the object or through NULL makes the
+# function return None exactly like a load (ld_ok).  memcpy(d, s, n) between two different objects is
+# `mcopy` under ld_ok / st_ok for the whole ranges.  A function returns the objects of its parameters that it writes
+# (after its value, if it has one): option (list Z), option (Z * list Z), option (list Z * list Z) ...
+# The branches of an `if` are never joined here (the code after it is emitted per branch): no variable is lost.
+# A SLICE (MEMW_LEAFS entry with a list of local names) translates only the declarations of those locals of a
+# function, in order, and returns the last one; the statements skipped on the way must not write to anything the
+# slice mentions (checked syntactically: no assignment through / to, no call other than the debug printer on, the
+# variables of the slice).
+class TrMemW(TrMem):
+    def __init__(self, fn, known, enums, sizes, tables, written=None):
+        TrMem.__init__(self, fn, known, enums, sizes, tables)
+        self.obj_of = {}          # pointer variable -> object variable (None: declared, points nowhere yet)
+        self.arr_locals = {}      # local array -> (object variable, size in bytes)
+        self.param_objs = []      # objects of the pointer parameters, in parameter order
+        self.written = written    # objects of parameters written by the function (None: first pass, assume all)
+        self.seen_writes = set()
+        self.void = False
+
+    # -- objects -------------------------------------------------------------
+    def objof(self, n):
+        k = n.get("kind")
+        if k in ("ParenExpr", "ConstantExpr"):
+            return self.objof(inner(n)[0])
+        if k in ("ImplicitCastExpr", "CStyleCastExpr"):
+            ck = n.get("castKind")
+            sub = inner(n)[0]
+            if ck in ("BitCast", "NoOp", "ArrayToPointerDecay"):
+                return self.objof(sub)
+            if ck == "LValueToRValue":
+                ss = sub
+                while ss.get("kind") == "ParenExpr":
+                    ss = inner(ss)[0]
+                if ss.get("kind") == "DeclRefExpr":
+                    return self.objof(ss)
+                raise Untranslatable("pointer loaded from memory")
+            raise Untranslatable("object of a pointer cast " + str(ck))
+        if k == "DeclRefExpr":
+            nm = n["referencedDecl"]["name"]
+            if nm in self.arr_locals:
+                return self.arr_locals[nm][0]
+            if self.obj_of.get(nm):
+                return self.obj_of[nm]
+            raise Untranslatable("pointer %s points into no known object" % nm)
+        if k == "BinaryOperator" and n.get("opcode") in ("+", "-"):
+            a, b = inner(n)
+            return self.objof(a if is_ptr_type(self.qt(a)) else b)
+        if k == "UnaryOperator" and n.get("opcode") in ("&", "*"):
+            return self.objof(inner(n)[0])
+        if k in ("MemberExpr", "ArraySubscriptExpr"):
+            return self.objof(inner(n)[0])
+        raise Untranslatable("object of " + str(k))
+
+    def note_write(self, m):
+        self.seen_writes.add(m)
+
+    def paddr(self, n):
+        if n.get("kind") == "DeclRefExpr" and n["referencedDecl"]["name"] in self.arr_locals:
+            return [], "(Some 0)"
+        return TrMem.paddr(self, n)
+
+    def array_type(self, q):
+        """(element size, count) of an array-of-integers type"""
+        m = re.fullmatch(r"(.*?)\s*\[(\d+)\]", (q or "").replace("const ", "").strip())
+        if m and int_type(m.group(1)):
+            return max(8, int_type(m.group(1))[0]) // 8, int(m.group(2))
+        return None
+
+    def expr(self, n):
+        if n.get("kind") == "UnaryExprOrTypeTraitExpr" and n.get("name") == "sizeof":
+            at = (n.get("argType") or {})
+            q = at.get("desugaredQualType") or at.get("qualType")
+            if q is None and inner(n):
+                q = self.qt(inner(n)[0])
+            a = self.array_type(q)
+            if a:
+                return [], "(%d)" % (a[0] * a[1])
+        return TrMem.expr(self, n)
+
+    # -- calls ---------------------------------------------------------------
+    def call_parts(self, n):
+        """call to a translated function -> (guards, option-term, [objects it writes], has a value)"""
+        name = self.callee(n)
+        if name in BSWAP:
+            g, t = self.expr(n)
+            return g, "(Some %s)" % t, [], True
+        sig = self.known.get(name)
+        if not sig or sig[1] not in ("mem", "memw"):
+            raise Untranslatable("call to " + str(name))
+        args = inner(n)[1:]
+        if len(args) != len(sig[0]):
+            raise Untranslatable("argument count of " + str(name))
+        g, ts, objs = [], [], []
+        for a, kind in zip(args, sig[0]):
+            if kind == "ptr":
+                ga, ta = self.pexpr(a)
+                objs.append(self.objof(a))
+            else:
+                ga, ta = self.expr(a)
+            g += ga
+            ts.append(ta)
+        if sig[1] == "mem":
+            if len(set(objs)) != 1:
+                raise Untranslatable("%s takes pointers into one object" % name)
+            return g, "(%s_gen %s %s)" % (name, objs[0], " ".join(ts)), [], True
+        wr = [objs[i] for i in sig[2]]
+        if wr and len(set(objs)) != len(objs):
+            raise Untranslatable("aliased pointer arguments to %s, which writes" % name)
+        return g, "(%s_gen %s)" % (name, " ".join(objs + ts)), wr, sig[3]
+
+    def call_term(self, n):
+        g, t, wr, val = self.call_parts(n)
+        if wr or not val:
+            raise Untranslatable("value of a call that writes memory / has no value: " + str(self.callee(n)))
+        return g, t
+
+    # -- statements ----------------------------------------------------------
+    def contains_store(self, n):
+        k = n.get("kind")
+        if k in ("BinaryOperator", "CompoundAssignOperator") and n.get("opcode", "").endswith("=") \
+                and n["opcode"] not in ("==", "!=", "<=", ">="):
+            return True
+        if k == "UnaryOperator" and n.get("opcode") in ("++", "--"):
+            return True
+        if k == "CallExpr" and self.callee(n) not in BSWAP and self.callee(n) not in ("lrtr_dbg", "printf"):
+            return True
+        return any(self.contains_store(c) for c in inner(n))
+
+    def may_join(self, s):
+        return not self.contains_store(s)
+
+    def strip_value(self, n):
+        """(node without parentheses / no-op casts, list of integral casts passed on the way, outermost first)"""
+        casts = []
+        while n.get("kind") in ("ImplicitCastExpr", "ParenExpr", "CStyleCastExpr"):
+            if n.get("kind") != "ParenExpr":
+                if n.get("castKind") == "IntegralCast":
+                    casts.append(n)
+                elif n.get("castKind") not in ("NoOp", "LValueToRValue"):
+                    break
+            n = inner(n)[0]
+        return n, casts
+
+    def store_stmt(self, s, nxt):
+        op = s["opcode"]
+        lhs, rhs = inner(s)
+        t = self.ty(lhs)
+        if t is None:
+            raise Untranslatable("store of a non-integer " + self.qt(lhs))
+        size = max(8, t[0]) // 8
+        bind = ""
+        if op == "=":
+            rr, casts = self.strip_value(rhs)
+            if rr.get("kind") == "CallExpr" and self.callee(rr) not in BSWAP:
+                g, ct = self.call_term(rr)
+                bind = "do tmp__ <- %s;\n" % ct
+                val = "tmp__"
+                for c in reversed(casts):
+                    val = self.wrap(c, val)
+            else:
+                g, val = self.expr(rhs)
+        else:
+            fake = {"kind": "BinaryOperator", "opcode": op[:-1], "type": s.get("computeResultType", s.get("type")),
+                    "inner": [self.rvalue_of(lhs), rhs]}
+            g, val = self.expr(fake)
+            val = self.wrap(s, val)
+        ga, p = self.paddr(lhs)
+        m = self.objof(lhs)
+        self.note_write(m)
+        body = "let %s := stu %s %s %d %s in\n%s" % (m, m, p, size, val, nxt())
+        return self.guarded(g, bind + self.guarded(ga + ["(st_ok %s %s %d)" % (m, p, size)], body))
+
+    def stmts(self, lst, k):
+        if lst:
+            s, rest = lst[0], lst[1:]
+            nxt = lambda: self.stmts(rest, k)  # noqa: E731
+            kind = s.get("kind")
+            if kind == "DeclStmt":
+                ds = [d for d in inner(s) if d.get("kind") == "VarDecl"]
+                arr = [d for d in ds if self.array_type(self.qt(d))]
+                if arr:
+                    if len(ds) != 1 or inner(ds[0]):
+                        raise Untranslatable("array declaration with initialiser / several declarators")
+                    d = ds[0]
+                    esz, cnt = self.array_type(self.qt(d))
+                    self.locals.add(d["name"])
+                    self.arr_locals[d["name"]] = ("m_" + d["name"], esz * cnt)
+                    return "let m_%s := zeros %d in\n%s" % (d["name"], esz * cnt, nxt())
+                if any(is_ptr_type(self.qt(d)) for d in ds):
+                    if len(ds) != 1:
+                        raise Untranslatable("several declarators with a pointer")
+                    d = ds[0]
+                    self.obj_of[d["name"]] = None
+                    if inner(d):
+                        init = inner(d)[0]
+                        if "NullToPointer" not in json.dumps(init):
+                            self.obj_of[d["name"]] = self.objof(init)
+                    return TrMem.stmts(self, lst, k)
+            if kind == "BinaryOperator" and s.get("opcode") == "=" and is_ptr_type(self.qt(s)):
+                lhs, rhs = inner(s)
+                while lhs.get("kind") == "ParenExpr":
+                    lhs = inner(lhs)[0]
+                if lhs.get("kind") == "DeclRefExpr" and lhs["referencedDecl"]["name"] in self.ptr_locals \
+                        and "NullToPointer" not in json.dumps(rhs):
+                    nm = lhs["referencedDecl"]["name"]
+                    o = self.objof(rhs)
+                    if self.obj_of.get(nm) not in (None, o):
+                        raise Untranslatable("pointer %s moves from one object to another" % nm)
+                    self.obj_of[nm] = o
+                return TrMem.stmts(self, lst, k)
+            if kind in ("BinaryOperator", "CompoundAssignOperator") and s.get("opcode", "").endswith("=") \
+                    and s["opcode"] not in ("==", "!=", "<=", ">=") and self.through_pointer(inner(s)[0]):
+                return self.store_stmt(s, nxt)
+            if kind == "CallExpr":
+                name = self.callee(s)
+                if name in ("memcpy", "__builtin_memcpy"):
+                    d, sr, cnt = inner(s)[1:4]
+                    gd, pd = self.pexpr(d)
+                    gs, ps = self.pexpr(sr)
+                    gn, tn = self.expr(cnt)
+                    md, ms = self.objof(d), self.objof(sr)
+                    if md == ms:
+                        raise Untranslatable("memcpy inside one object")
+                    self.note_write(md)
+                    return self.guarded(gd + gs + gn + ["(ld_ok %s %s %s)" % (ms, ps, tn), "(st_ok %s %s %s)" % (md, pd, tn)],
+                                        "let %s := mcopy %s %s %s %s %s in\n%s" % (md, md, pd, ms, ps, tn, nxt()))
+                if name in self.known and self.known[name][1] in ("mem", "memw"):
+                    g, t, wr, val = self.call_parts(s)
+                    for m in wr:
+                        self.note_write(m)
+                    pat = ([("_" if val else None)] if val else []) + wr
+                    pat = [x for x in pat if x]
+                    ptxt = "_" if not pat else (pat[0] if len(pat) == 1 else "(%s)" % ", ".join(pat))
+                    return self.guarded(g, "do %s <- %s;\n%s" % (ptxt, t, nxt()))
+        return TrMem.stmts(self, lst, k)
+
+    # -- whole function --------------------------------------------------------
+    def header(self, params):
+        """declare the parameters; -> (signature text, kinds)"""
+        nptr = sum(1 for p in params if is_ptr_type(p["type"].get("desugaredQualType", p["type"]["qualType"])))
+        objs, vals, kinds = [], [], []
+        for p in params:
+            self.locals.add(p["name"])
+            q = p["type"].get("desugaredQualType", p["type"]["qualType"])
+            if int_type(q) or int_type(p["type"]["qualType"]):
+                vals.append("(%s : Z)" % gname(p["name"]))
+                kinds.append("Z")
+            elif is_ptr_type(q):
+                o = "mem" if nptr == 1 else "m_" + p["name"]
+                objs.append(o)
+                self.param_objs.append(o)
+                self.obj_of[p["name"]] = o
+                self.ptr_locals.add(p["name"])
+                vals.append("(%s : option Z)" % gname(p["name"]))
+                kinds.append("ptr")
+            else:
+                raise Untranslatable("parameter type " + q)
+        sig = " ".join((["(%s : list Z)" % " ".join(objs)] if objs else []) + vals)
+        return sig, kinds
+
+    def out_objs(self):
+        return [o for o in self.param_objs if self.written is None or o in self.written]
+
+    def result_type(self):
+        parts = ([] if self.void else ["Z"]) + ["list Z"] * len(self.out_objs())
+        if not parts:
+            return "unit"
+        return "Z" if parts == ["Z"] else "(%s)" % " * ".join(parts)
+
+    def ret(self, term):
+        parts = []
+        if not self.void:
+            t = int_type(self.rq)
+            parts.append("(b2z (z2b %s))" % term if t[0] == 1 else "(%s %d %s)" % ("wraps" if t[1] else "wrapu", t[0], term))
+        parts += self.out_objs()
+        if not parts:
+            return "Some tt"
+        return "Some %s" % (parts[0] if len(parts) == 1 else "(%s)" % ", ".join(parts))
+
+    def function(self, mutates=False):
+        fn = self.fn
+        params = [c for c in inner(fn) if c.get("kind") == "ParmVarDecl"]
+        body = [c for c in inner(fn) if c.get("kind") == "CompoundStmt"][0]
+        sig, kinds = self.header(params)
+        rq = fn["type"]["qualType"].split("(")[0].strip()
+        self.void = rq == "void"
+        if not self.void and not int_type(rq):
+            raise Untranslatable("return type " + rq)
+        self.result_kind = "Z"
+        self.rq = rq
+        term = self.stmts([body], lambda: self.ret(None) if self.void else "None (* falls off the end *)")
+        if self.written is None:
+            # second pass: now that the stores are known, return only the objects that are written
+            w = set(o for o in self.param_objs if o in self.seen_writes)
+            return TrMemW(fn, self.known, self.enums, self.sizes, self.tables, written=w).function()
+        widx = [i for i, o in enumerate(self.param_objs) if o in self.written]
+        return "Definition %s_gen %s : option %s :=\n%s.\n" % (fn["name"], sig, self.result_type(), term), \
+               (kinds, "memw", widx, not self.void)
+
+    def mentions(self, n, names):
+        if n.get("kind") == "DeclRefExpr" and n.get("referencedDecl", {}).get("name") in names:
+            return True
+        return any(self.mentions(c, names) for c in n.get("inner", []))
+
+    def check_skipped(self, n, names):
+        """a statement that the slice leaves out must not change what the slice reads"""
+        k = n.get("kind")
+        if k in ("BinaryOperator", "CompoundAssignOperator") and n.get("opcode", "").endswith("=") \
+                and n["opcode"] not in ("==", "!=", "<=", ">=") and self.mentions(inner(n)[0], names):
+            raise Untranslatable("skipped statement assigns to / through a variable of the slice")
+        if k == "UnaryOperator" and n.get("opcode") in ("++", "--") and self.mentions(n, names):
+            raise Untranslatable("skipped statement increments a variable of the slice")
+        if k == "CallExpr" and self.callee(n) not in ("lrtr_dbg", "printf") and not self.callee(n) in BSWAP \
+                and any(self.mentions(a, names) for a in inner(n)[1:]):
+            raise Untranslatable("skipped statement hands a variable of the slice to %s" % self.callee(n))
+        if k == "UnaryOperator" and n.get("opcode") == "&" and self.mentions(n, names):
+            raise Untranslatable("skipped statement takes the address of a variable of the slice")
+        for c in n.get("inner", []):
+            self.check_skipped(c, names)
+
+    def slice(self, names):
+        fn = self.fn
+        params = [c for c in inner(fn) if c.get("kind") == "ParmVarDecl"]
+        body = [c for c in inner(fn) if c.get("kind") == "CompoundStmt"][0]
+        chosen, skipped, pending, todo = [], [], [], list(names)
+        last = None
+        for st in inner(body):
+            ds = [d for d in inner(st) if d.get("kind") == "VarDecl"] if st.get("kind") == "DeclStmt" else []
+            if todo and any(d["name"] == todo[0] for d in ds):
+                if len(ds) != 1:
+                    raise Untranslatable("slice: several declarators")
+                chosen.append(st)
+                skipped += pending
+                pending = []
+                last = ds[0]
+                todo.pop(0)
+            elif todo:
+                pending.append(st)
+        if todo:
+            raise Untranslatable("slice: no top-level declaration of %s (in this order)" % todo[0])
+        used = [p for p in params if any(self.mentions(st, {p["name"]}) for st in chosen)]
+        allnames = set(names) | set(p["name"] for p in used)
+        for st in skipped:
+            self.check_skipped(st, allnames)
+        sig, kinds = self.header(used)
+        lt = int_type(self.qt(last)) or int_type(last["type"]["qualType"])
+        if not lt:
+            raise Untranslatable("slice: the last local is not an integer")
+        self.void = False
+        self.written = set()
+        term = self.stmts(chosen, lambda: "Some %s" % gname(last["name"]))
+        if self.seen_writes & set(self.param_objs):
+            raise Untranslatable("slice writes memory")
+        return "Definition %s__%s_gen %s : option Z :=\n%s.\n" % (fn["name"], last["name"], sig, term), (kinds, "memw", [], True)
+
+
+# (file, function, None | [locals of a slice])
+MEMW_LEAFS = [
+    ("rtrlib/lib/convert_byte_order.c", "lrtr_convert_short", None),
+    ("rtrlib/lib/convert_byte_order.c", "lrtr_convert_long", None),
+    ("rtrlib/rtr/packets.c", "rtr_pdu_convert_header_byte_order", None),
+    ("rtrlib/rtr/packets.c", "rtr_pdu_header_to_host_byte_order", None),
+    ("rtrlib/lib/ipv4.c", "lrtr_ipv4_addr_convert_byte_order", None),
+    ("rtrlib/lib/ipv6.c", "lrtr_ipv6_addr_convert_byte_order", None),
+    ("rtrlib/rtr/packets.c", "rtr_pdu_convert_footer_byte_order", None),
+    ("rtrlib/rtr/packets.c", "rtr_pdu_footer_to_host_byte_order", None),
+    ("rtrlib/rtr/packets.c", "rtr_handle_error_pdu", ["pdu", "len_err_txt"]),
+]
+MEMW_ENUMS = [("rtrlib/lib/convert_byte_order.c", "target_byte_order")]
+MEMW_OUT = os.path.join(vlib.THEORIES, "Gen", "GeneratedMemW.v")
+_MEM_CTX = {}
+
+
+def generate_memw():
+    """text of Gen/GeneratedMemW.v: functions that write through pointers (the byte-order conversion of a received
+    PDU's body), over the functions of GeneratedMem.v"""
+    out, problems = [], []
+    w = out.append
+    w("(* GENERATED by tools/c2v.py (memory mode with stores) from the repository sources - do not edit. *)")
+    w("From RtrV Require Import Base.CSem Base.Mem Base.MemW Gen.Generated Gen.GeneratedMem.")
+    w("Local Open Scope string_scope.\nLocal Open Scope Z_scope.\n")
+    if "known" not in _MEM_CTX:
+        generate_mem()
+    known = dict(_MEM_CTX.get("known", {}))
+    enums_all = dict(_MEM_CTX.get("enums", {}))
+    sizes = _MEM_CTX.get("sizes", {})
+    if sizes.get(("E", "little_endian")) != 1:
+        problems.append("host is not little-endian: loads and stores are not modelled")
+    for cfile, en in MEMW_ENUMS:
+        try:
+            vals = enum_values(cfile, en)
+            w("Definition enum_%s : list (string * Z) :=\n  [%s]." % (en, ";\n   ".join("(%s, %d)" % (coq_string(n), v) for n, v in vals)))
+            for n, v in vals:
+                if n not in enums_all:
+                    w("Definition %s : Z := %d." % ("c_" + n, v))
+                    enums_all[n] = v
+            w("")
+        except Exception as e:  # noqa: BLE001
+            problems.append("enum %s: %s" % (en, e))
+            w("Definition enum_%s_untranslated := tt.\n" % en)
+    for cfile, fname, sl in MEMW_LEAFS:
+        oname = fname if sl is None else "%s__%s" % (fname, sl[-1])
+        try:
+            fn = find_def(cfile, fname)
+            if fn is None:
+                raise Untranslatable("definition not found")
+            tr = TrMemW(fn, known, enums_all, sizes, {})
+            if sl is None:
+                text, sig = tr.function()
+                w("(* %s : %s *)" % (cfile, fname))
+            else:
+                text, sig = tr.slice(sl)
+                w("(* %s : %s - SLICE: only the declarations of %s, in this order; the statements skipped on the way\n"
+                  "   neither assign to / through, nor hand to a function other than the debug printer, any variable of the slice *)"
+                  % (cfile, fname, ", ".join(sl)))
+            known[oname] = sig
+            w(text)
+        except Exception as e:  # noqa: BLE001
+            problems.append("function %s: %s" % (oname, e))
+            w("(* %s could not be translated: %s *)" % (oname, str(e).replace("*)", "* )")))
+            w("Definition %s_untranslated := tt.\n" % oname)
+    w("Definition memw_translator_problems : list string := [%s]." % "; ".join(coq_string(p[:200]) for p in problems))
     return "\n".join(out) + "\n", problems
 
 
@@ -2172,6 +2625,14 @@ def write_if_changed(path, text, label):
 
 
 def main():
+    # --only-memw [path]: write only Gen/GeneratedMemW.v (to `path` if given)
+    if "--only-memw" in sys.argv[1:]:
+        rest = [a for a in sys.argv[1:] if a != "--only-memw"]
+        wtext, wproblems = generate_memw()
+        write_if_changed(rest[0] if rest else MEMW_OUT, wtext, "GeneratedMemW.v")
+        for p in wproblems:
+            print("c2v: problem:", p)
+        return 0
     # VERIF_SKEL_OUT=<path>: write only the lock skeletons, to a scratch path (for testing the emitter)
     skel_only = os.environ.get("VERIF_SKEL_OUT")
     if skel_only:
@@ -2188,7 +2649,9 @@ def main():
     write_if_changed(MEM_OUT, mtext, "GeneratedMem.v")
     itext, iproblems = generate_ip()
     write_if_changed(IP_OUT, itext, "GeneratedIp.v")
-    mproblems = mproblems + iproblems
+    wtext, wproblems = generate_memw()
+    write_if_changed(MEMW_OUT, wtext, "GeneratedMemW.v")
+    mproblems = mproblems + iproblems + wproblems
     for p in problems + sproblems + mproblems:
         print("c2v: problem:", p)
     return 0
